@@ -168,3 +168,18 @@ pub fn dead_roots(ex: &Exec) -> Option<String> {
     }
     None
 }
+
+/// Does the source under test have `SelectState.unanswered` (notes/C05-fixes/01: a select with
+/// process sources waits for its await answers)?
+pub fn select_waits() -> bool {
+    std::fs::read_to_string(format!("{}/quiver-core/src/process.rs", qverif::repo()))
+        .map(|t| t.contains("pub unanswered"))
+        .unwrap_or(false)
+}
+
+/// `Executor::notify_pending` exists only with that repair. The inherent method wins over this
+/// trait method when it exists; on a tree without it the call resolves here and does nothing.
+pub trait NotifyPendingFallback {
+    fn notify_pending(&mut self, _awaiter: usize, _awaited: usize) {}
+}
+impl NotifyPendingFallback for Exec {}
